@@ -51,7 +51,7 @@ class C12(RS.StepProp):
     corr_fn = 'C12Check.corr_ok'
     fail_fn = 'C12Check.prop_fail'
     quick_cases = 260
-    thorough_cases = 3000
+    thorough_cases = 1200
     extended_cases = 500
     fail_text = {1: 'node keys of the fine graph are not 0..n-1',
                  2: 'node keys are not ascending in coarse membership (fragid)',
